@@ -668,6 +668,20 @@ def backtrace_window(rec, F):
             rec.finding(R, "F10.bt/error_backtrace", "Fiber::error_backtrace no longer pairs frames (innermost first) with the recorded ips", loc=eb.loc, fn=eb.path)
     pe = F.fn("laythe_vm::fiber::Fiber::print_error")
     if pe is not None:
+        # sibling agreement: stack_unwind redirects the ip of every frame it searches for a handler (store_ip) after
+        # pause_unwind has recorded the real one; the caught path (error_backtrace) reads the record, the uncaught path must too
+        reads = False
+        for b_ in [pe] + list(F.closures_of(pe)):
+            for bi, si, s in b_.stmts():
+                for q in sem.places_in_rvalue(s["r"]):
+                    if sem.place_has_field(q, "laythe_vm::fiber::Fiber", "backtrace_ips"):
+                        reads = True
+        su = F.fn("laythe_vm::fiber::Fiber::stack_unwind")
+        redirects = su is not None and any(lastseg(t["f"]) == "store_ip" for _, t in su.calls())
+        okr = reads or not redirects
+        rec.inst(R, "print_error: ips of searched frames come from the unwind's record", ok=okr, loc=pe.loc)
+        if not okr:
+            rec.finding(R, "F10.bt/print_error-redirected-ip", "Fiber::stack_unwind redirects the ip of each frame it searches to that frame's handler, and Fiber::print_error (uncaught errors) reads frame.ip() without consulting backtrace_ips: after a catch clause that did not match, the traceback shows a line inside the catch instead of the call site", loc=pe.loc, fn=pe.path)
         ns = [lastseg(t["f"]) for _, t in pe.calls()]
         ok3 = "rev" in ns
         rec.inst(R, "print_error: frames innermost first", ok=ok3, loc=pe.loc)
